@@ -180,7 +180,7 @@ def feature_configs(tier):
     afs = [(), FEATS, ("lock",), ("err",), ("rty",), ("stall",), ("cti",), ("bte",), ("err", "rty", "stall"),
            ("lock", "stall")]
     if not quick:
-        afs += [("lock", "cti", "bte"), ("err", "lock"), ("rty", "stall", "cti"), ("err", "rty", "lock", "bte")]
+        afs = [tuple(f for f, b in zip(FEATS, bits) if b) for bits in itertools.product((0, 1), repeat=6)]
     out = []
     for af in afs:
         for policy in ("same", "all", "minimal", "mixed"):
@@ -213,6 +213,8 @@ def configs(tier):
     for af, policy in feature_configs(tier):
         for n in (1, 2, 3, 4):
             if quick and n == 4 and (policy not in ("same", "mixed") or len(af) > 1):
+                continue
+            if not quick and n in (1, 4) and len(af) not in (0, 1, 2, 6):
                 continue
             if n == 4 and "lock" in af and policy == "all" and len(af) > 2:
                 continue
